@@ -2,7 +2,7 @@
 From Coq Require Import ZArith NArith List Bool.
 From GoCoap Require Import Base.Cases Base.Bytes Gen.ServerConsts NoResp.Model Dedup.Model Dedup.Spec Server.Model Server.Spec.
 From GoCoap Require Monitor.Model Server.KeepAlive.
-From GoCoap Require Import Server.Addr Server.TokenKey Server.OptGrow.
+From GoCoap Require Import Server.Addr Server.TokenKey Server.OptGrow Server.Queue.
 Import ListNotations.
 Open Scope Z_scope.
 
@@ -65,7 +65,14 @@ Record pdstep := PD { pd_fresh : bool;       (* a new pooled message (pool.NewMe
                       pd_res : Z;            (* observed: 0 = decoded, 1.. = error class (derr_num), 98 = another error, 99 = panic *)
                       pd_nopts : Z; pd_plen : Z (* observed when decoded: options kept, payload length *) }.
 
+(* one peer of a burst run: it sent the requests 0 .. n-1 back to back; observed: the order the application saw them in *)
+Record bpeer := BP { bp_n : Z; bp_order : list Z }.
+
 Inductive case :=
+(* a live udp server with ReceivedMessageQueueSize = qsize; the handler of the first request is held while the peers
+   send their bursts; witness: 1 = the read loop was seen waiting in Conn.Process for a slot, 2 = the socket was seen
+   empty with the read loop back in its read, 0 = neither within the watchdog *)
+| BurstRun (qsize : Z) (peers : list bpeer) (witness : Z) (alive probe stopped : bool) (panics : Z)
 (* a sequence of received messages decoded by ONE pooled message (NewMessage, then Reset before each, as
    Pool.ReleaseMessage / AcquireMessage do), udp coder or tcp coder *)
 | PoolSeq (tcp : bool) (steps : list pdstep)
@@ -399,8 +406,17 @@ Fixpoint pool_seq_agrees (tcp : bool) (cap : Z) (steps : list pdstep) : bool :=
     && pool_seq_agrees tcp (last t cap) r
   end.
 
+(* the queue model on a schedule that lets both loops run until nothing is left (by Queue.queue_complete every such
+   schedule gives the arrival sequence) *)
+Definition burst_model_order (qsize n : Z) : list Z :=
+  q_done (qrun (Z.to_nat qsize) (map Z.of_nat (seq 0 (Z.to_nat n)))
+               (concat (repeat [QRead; QHandle] (Z.to_nat n)))).
+
 Definition agrees (c : case) : bool :=
   match c with
+  | BurstRun qsize peers _ alive probe stopped panics =>
+      alive && probe && stopped && (panics =? 0) && (0 <? qsize)
+      && forallb (fun p => list_eqb Z.eqb (bp_order p) (burst_model_order qsize (bp_n p))) peers
   | PoolSeq tcp steps => pool_seq_agrees tcp 16 steps
   | KeyRep r1 l1 r2 l2 oe of ow =>
       valid_addr r1 && valid_addr l1 && valid_addr r2 && valid_addr l2
@@ -456,6 +472,8 @@ Definition agrees (c : case) : bool :=
 
 Definition pclass (c : case) : N :=
   match c with
+  | BurstRun _ peers _ alive probe stopped panics =>
+      c10_burst_class alive probe stopped panics (map (fun p => (bp_n p, bp_order p)) peers)
   | PoolSeq _ steps => c10_decode_class (map pd_ret steps) (map (fun s => pd_res s =? 99) steps)
   | UdpRun _ _ _ peers _ alive probe stopped panics =>
       let c := c10_run_class alive probe stopped panics (goods_of peers) in
